@@ -60,8 +60,8 @@ K_TSORT = 'TemporalDataset.sort_by,ties'
 K_BIN_LIST = 'bin_time,list-typed-time-descriptor'
 K_ODD_SINGLE = 'odd_even_split,single-value'
 K_SUBT_EMPTY = 'subset_time,no-time-point-in-range'
-# labels whose defect has been repaired in /repo (aed6debb, 95e01e94, 1694cd79): histories continue through such steps
-REPAIRED = {K_TAO_SINGLE, K_TSORT, K_BIN_LIST}
+# labels whose defect has been repaired in /repo (aed6debb, 95e01e94, 1694cd79, 1f4e5f7f, 6122a8e4): histories continue through such steps
+REPAIRED = {K_TAO_SINGLE, K_TSORT, K_BIN_LIST, K_TAO_DUP, K_ODD_SINGLE}
 
 
 # =====================================================================================================
@@ -167,7 +167,8 @@ def _m_unary(op, v):
         return out
     if k == 'odd_even':
         parts = _m_unary(['split_obs', op[1]], v)
-        return [_m_merge(parts[0::2]), _m_merge(parts[1::2])]
+        # a half without any part is the empty selection of the source (no observation, same channels / times / descriptors)
+        return [_m_merge(h) if h else v.clone(rows=[]) for h in (parts[0::2], parts[1::2])]
     if k == 'nested_odd_even':
         odd, even = [], []
         for p in _m_unary(['split_obs', op[1]], v):
